@@ -132,3 +132,18 @@ Theorem C08_allocator_from_source : forall s f i need, vt (ft s) ->
   end.
 Proof. exact alloc_step_gen. Qed.
 Print Assumptions C08_allocator_from_source.
+
+(** [pre] is about the boot sector: for a state whose geometry record is the one the regenerated [parse_header] derives from its boot sector
+    (what [mount] builds), it follows from elementary facts about the boot-sector fields and the size of the table *)
+Theorem C08_pre_from_header : forall s,
+  vt (ft s) ->
+  s_p s = set_bytes_per_cluster (Gen.parse_header_geometry pf_init (s_h s)) (BPB_BytsPerSec (s_h s) * BPB_SecPerClus (s_h s)) ->
+  0 < BPB_BytsPerSec (s_h s) -> 0 < BPB_SecPerClus (s_h s) -> 512 <= BPB_RsvdSecCnt (s_h s) * BPB_BytsPerSec (s_h s) ->
+  0 <= get_fat_size_count (s_h s) -> 0 <= BPB_NumFATs (s_h s) -> 0 <= BPB_RootEntCnt (s_h s) ->
+  first_data_sector (s_p s) <= total_sectors s ->
+  lenZ (pack_fat (ft s) (s_fat s) (s_hi s)) <= fat_bytes s ->
+  pre s.
+Proof.
+  intros s Hv Hp Hb Hc Hr Hf Hn He Ht Hl. split; [exact Hv|]. split; [apply geo_of_header; assumption|exact Hl].
+Qed.
+Print Assumptions C08_pre_from_header.
